@@ -6,6 +6,7 @@
    every cluster content (absent / present, matching or not, owner-reffed or
    not — [s_live], [s_match], owner data are arbitrary). *)
 From Koreo Require Import Json Payload ResourceFn ResourceFn_proofs RfFaults RfFaults_proofs.
+From Koreo Require Faults CrossModel_faults.
 Local Open Scope list_scope.
 
 (* "A readonly ResourceFunction never creates or patches" *)
@@ -155,6 +156,18 @@ Theorem C07f_failed_write_is_not_ok : forall s ag am,
   match fst (reconcile_krm_f s ag am) with KObj _ => False | _ => True end.
 Proof. exact f_failed_write_is_not_ok. Qed.
 
+(* the faulted model agrees with the (richer, independently written and independently validated)
+   fault-plan model of C09 on every fault both can express: [ans_of_get] reads C09's fault at the
+   read as an answer, [eff_answer] gives the effective answer to the write from C09's fault and the
+   actual cluster content (the server answers 409 / 404 by itself) *)
+Theorem C07_faulted_models_agree : forall (s : scenario) (fp : Faults.fplan) (ag am : answer),
+  CrossModel_faults.ans_of_get (Faults.fp_get fp) = Some ag ->
+  (forall m, nth_error (snd (reconcile_rf_f s ag AOk)) 1 = Some m ->
+             CrossModel_faults.eff_answer m (Faults.fp_mut fp) (s_live s) = Some am) ->
+  fst (Faults.reconcile_rf_faulty s fp) =
+    (Faults.FRes (fst (reconcile_rf_f s ag am)), snd (reconcile_rf_f s ag am)).
+Proof. exact CrossModel_faults.faulted_models_agree. Qed.
+
 (* non-vacuity: a concrete scenario that patches, one that is readonly *)
 Definition ex_cfg (ro : bool) : cfg :=
   {| c_version := "v1"; c_kind := "Widget"; c_plural := Some "widgets"; c_namespaced := true;
@@ -191,6 +204,18 @@ Example C07f_nonvacuous :
     (KStop (StopRetry 30 "load resource"), [CGet "widgets" (Some "ns") "w"]).
 Proof. vm_compute. repeat split; reflexivity. Qed.
 
+Example C07_faulted_models_agree_nonvacuous :
+  let fp := {| Faults.fp_get := Faults.FNone; Faults.fp_mut := Faults.FSrv 404 false |} in
+  CrossModel_faults.ans_of_get (Faults.fp_get fp) = Some AOk /\
+  (forall m, nth_error (snd (reconcile_rf_f ex_die AOk AOk)) 1 = Some m ->
+             CrossModel_faults.eff_answer m (Faults.fp_mut fp) (s_live ex_die) = Some AExc) /\
+  fst (fst (Faults.reconcile_rf_faulty ex_die fp)) = Faults.FRes FRaise.
+Proof.
+  cbn zeta. split; [reflexivity|]. split.
+  - intros m H. vm_compute in H. injection H as <-. reflexivity.
+  - vm_compute. reflexivity.
+Qed.
+
 Print Assumptions C07_readonly_never_creates_or_patches.
 Print Assumptions C07_readonly_no_mutation.
 Print Assumptions C07_create_disabled_never_creates.
@@ -215,3 +240,4 @@ Print Assumptions C07f_absent_cannot_create_waits.
 Print Assumptions C07f_precondition_stop_no_calls.
 Print Assumptions C07f_function_calls_are_krm_calls.
 Print Assumptions C07f_failed_write_is_not_ok.
+Print Assumptions C07_faulted_models_agree.
